@@ -107,6 +107,14 @@ def all_rewrites(node, rnd, nested=False):
             yield rule, nst, replace_at(node, path, new)
 
 
+def full_stack(s):
+    def cv(v):
+        if v["t"] == "q":
+            return ("q", tuple(cv(e) for e in v["e"]), v["p"])
+        return (v["t"], v.get("v"), v.get("x"), v.get("d"), v["p"])
+    return tuple(cv(v) for v in s)
+
+
 def run(drv, text, flags=0):
     return drv.run(text, flags=flags, limit=3000, steps=2000000)
 
@@ -134,6 +142,12 @@ def same(r0, r1, ordered):
     if ordered:
         if a != b:
             return "result sequences differ (%d vs %d results)" % (len(a), len(b))
+        # a pure change of notation (layout, spelling, simplifier) must not even change positions
+        pa = [full_stack(s) for s in r0["res"]]
+        pb = [full_stack(s) for s in r1["res"]]
+        if pa != pb:
+            k = next(i for i in range(len(pa)) if pa[i] != pb[i])
+            return "result #%d has the same values at different positions: %r vs %r" % (k, pa[k], pb[k])
     elif Counter(a) != Counter(b):
         return "result multisets differ: only-canonical %r only-variant %r" % (
             list((Counter(a) - Counter(b)).elements())[:2], list((Counter(b) - Counter(a)).elements())[:2])
